@@ -4,7 +4,9 @@ import itertools
 import sys
 import types
 
+from ..core import lean
 from ..core.common import Outcome, rng_for, fingerprint
+from ..core.par import run_chunks, mark
 
 ID = 'C19'
 MODULE = 'AiutiVerif.Parse.Props'
@@ -352,6 +354,7 @@ def evaluate(ctx, cases, out):
     answers = ctx.driver.ask([p[0] for p in prepared])
     for case, (line, reg), ans in zip(cases, prepared, answers):
         out.evaluations += 1
+        mark(case)
         res, log, trips = run_impl(case)
         msg = monitor(case, res, trips)
         if msg:
@@ -374,17 +377,26 @@ def evaluate(ctx, cases, out):
             out.sample({'case': case, 'impl': i_head, 'model': ans})
 
 
-def run(ctx):
+class _Ctx:
+    pass
+
+
+def _chunk(payload):
+    quick, seed, part, nparts = payload
     from aiuti.parsing import parse_to_dict
+    ctx = _Ctx()
+    ctx.quick, ctx.seed, ctx.driver = quick, seed, lean.Driver()
     out = Outcome()
-    if parse_to_dict.__kwdefaults__.get('parse') is not ast.literal_eval:
+    if part == 0 and parse_to_dict.__kwdefaults__.get('parse') is not ast.literal_eval:
         out.diffs.append({'case': None, 'where': 'the default parser is not ast.literal_eval '
                           '(the model instantiates the default with the literal_eval oracle)',
                           'impl': repr(parse_to_dict.__kwdefaults__.get('parse')), 'model': 'ast.literal_eval'})
     batch = []
-    for case in gen_cases(ctx):
+    for i, case in enumerate(gen_cases(ctx)):
+        if i % nparts != part:
+            continue
         batch.append(case)
-        if len(batch) >= 5000:
+        if len(batch) >= 2000:
             evaluate(ctx, batch, out)
             batch = []
             if len(out.concrete) + len(out.diffs) > 50:
@@ -393,6 +405,12 @@ def run(ctx):
         evaluate(ctx, batch, out)
     out.extra['tripwire_hits'] = _trip.hits
     return out
+
+
+def run(ctx):
+    nparts = 4 if ctx.quick else ctx.workers
+    return run_chunks(_chunk, [(ctx.quick, ctx.seed, k, nparts) for k in range(nparts)], nparts,
+                      limit_s=180 if ctx.quick else 1500)
 
 
 def search(ctx, outcome):
